@@ -33,7 +33,9 @@ Classes(k) == IF k \in Blobs THEN {"empty", "one", "long", "nonascii"}
 BlobLen(c) == CASE c = "empty" -> 0 [] c = "one" -> 1 [] c = "long" -> 5000 [] OTHER -> 7
 
 \* containers a leaf is placed in
-Containers == {"direct", "ptr", "slice0", "slice1", "slice3", "array2", "field", "nested"}
+\* ("hidden": a slice of two structs whose second field is unexported and takes no bytes; "zerow"/"zerowh": slices of
+\*  elements that take no bytes at all - the empty struct, a struct with unexported fields only)
+Containers == {"direct", "ptr", "slice0", "slice1", "slice3", "array2", "field", "nested", "hidden", "zerow", "zerowh"}
 
 \* tokens of a leaf value
 LeafTokens(k, c) == IF k \in Blobs THEN << <<"len", 4>>, <<"data", BlobLen(c)>> >> ELSE << <<k, W(k)>> >>
@@ -50,6 +52,8 @@ Enc(k, c, cont) ==
          [] cont = "array2" -> << <<"len", 4>> >> \o Rep(v, 2)
          [] cont = "field" -> st
          [] cont = "nested" -> << <<"len", 4>> >> \o Rep(st, 2)
+         [] cont = "hidden" -> << <<"len", 4>> >> \o Rep(v, 2)
+         [] cont \in {"zerow", "zerowh"} -> << <<"len", 4>> >>
 
 RECURSIVE Width(_)
 Width(ts) == IF ts = <<>> THEN 0 ELSE ts[1][2] + Width(Tail(ts))
